@@ -36,12 +36,12 @@ from verif.contracts.common import (Obligation, Result, sym_call, Interp, Z3Alg,
 from verif.contracts import cuts, physsys
 
 LEVEL = 'other'
-EXPECTED_MIN = {'quick': 12, 'thorough': 14}
+EXPECTED_MIN = {'quick': 14, 'thorough': 16}
 EXPLANATION = ('PROVED (z3, relational where noted; transcendental frame helpers cut as uninterpreted functions shared by both runs): joint limits that are not reached '
                'change nothing in the spring joint kernels and in the positional joint update (limited model vs the same model without any limit); generalized limit and '
                'contact rows are masked to zero when not violated and a zero constraint jacobian gives zero constraint force for any solver output; contacts with '
                'dist >= 0 produce exactly zero update in the spring and positional contact resolution; link rotations returned by a step are unit (each is the output of a '
-               'normalisation of a non-zero quaternion) with and without contacts; a resting penetrating body is only pushed along the normal.  BOUNDED (the only evidence '
+               'normalisation of a non-zero quaternion) with and without contacts; a resting penetrating body is only pushed along the normal; a central normal impact of a body on the world (sphere on the ground, at ANY position) leaves with elasticity x impact speed -- positional: within 0.3 % and never overshooting, spring: exactly -e v_n plus the Baumgarte push-out term -- and creates no lateral velocity or spin.  BOUNDED (the only evidence '
                'for the history clauses): separated scene vs collisions disabled, limits removed vs inside limits, resting height / sinking / rebound ratio over drop histories.')
 TRUSTED = ['kinematics.link_to_joint_frame / axis_angle_ang / math.signed_angle / safe_norm as uninterpreted functions (same function in both runs)',
            'contact.get / mjx.collision cut: any contact set', 'jaxopt.ProjectedGradient cut: returns some vector']
@@ -544,6 +544,111 @@ def push_only(pipeline):
                     'to the body geom) and no lateral component: only pushed out, never pulled in', body, timeout=200, budget=600)
 
 
+def restitution(pipeline):
+  """the one-call content of "a sphere hitting the ground rebounds with the configured elasticity times its impact speed": a world--body contact whose contact point lies on the
+  normal through the body's centre of mass (a sphere), pure normal approach, any absolute position in the world"""
+  def body(A):
+    import z3
+    from verif.engine.opaque import cut
+    from verif.contracts import C04
+    from brax.base import Motion
+    import brax.contact as bc
+    xml = '<mujoco><worldbody><body name="a" pos="0 0 0.09"><freejoint/><geom size="0.1"/></body></worldbody></mujoco>'
+    sys = physsys.load(xml)
+    st, raw = C04.sym_pipeline_state(A, sys, pipeline)
+    c = sym_contact(A, 1, link_idx=(np.array([-1]), np.array([0])))
+    f = c.frame[0, 0]                                   # contact normal, pointing from the world geom to the body geom
+    a, b, sig, m, e = A.var('a'), A.var('b'), A.var('sigma'), raw['mass'][0], c.elasticity[0]
+    P = raw['pos'][0]
+    dot = lambda u, v: sum(x * y for x, y in zip(u, v))
+    pre = list(c.pre) + [c.dist[0] < 0, m > 0]
+    pre += [st.xd_i.ang.arr[0][i] == 0 for i in range(3)]
+    pre += [st.xd_i.vel.arr[0][i] == a * f[i] for i in range(3)]                     # body velocity: purely along the normal
+    pre += [c.pos[0][i] == P[i] + sig * f[i] for i in range(3)]                      # contact point on the normal through the centre of mass
+    H = {'brax.math:safe_norm': cuts.safe_norm_smt, 'brax.math:normalize': cuts.normalize_smt_full, 'brax.com:inv_inertia': cuts.uf_handler('inv_inertia')}
+    I = Interp(A, cuts=H)
+    if pipeline == 'positional':
+      from brax.positional import collisions
+      sysm = C04.with_sym_mass(sys, raw['mass'])
+      # the ground: contact normal = +z (concrete), everything else symbolic; the preconditions are SUBSTITUTED into the inputs (nlsat does not get through the
+      # equational form): body and previous velocity a e_z / b e_z, no spin, contact point P + sigma e_z
+      o = lambda *v: np.array([list(v)], dtype=object)
+      fr = c.frame.copy()
+      fr[0, 0] = [0, 0, 1]
+      f = [0, 0, 1]
+      st = st.replace(xd_i=Motion(ang=jp.zeros((1, 3)), vel=Sym(o(0, 0, a))))
+      cobj = c.obj.replace(frame=Sym(fr), pos=Sym(o(P[0], P[1], P[2] + sig)))
+      xdp = Motion(ang=jp.zeros((1, 3)), vel=Sym(o(0, 0, b)))
+      dl = A.arr('dlam', (1,))
+      pre = [c.friction[0, 0] >= 0, e >= 0, c.dist[0] < 0, m > 0, b <= 0]
+      with cut('brax.math:safe_norm', 'brax.com:inv_inertia', 'brax.math:normalize'):
+        xdv = sym_call(I, lambda ss_, s, p, cc, d: collisions.resolve_velocity(ss_, s, p, cc, d), sysm, st, xdp, cobj, Sym(dl))
+      k = -a - e * b                                    # required change of the normal velocity: from a to -e b
+      absk = z3.If(k >= 0, k, -k)
+      tiny = z3.And(*[z3.And(k * f[i] <= z3.RealVal(str(Fraction(1e-8))), k * f[i] >= -z3.RealVal(str(Fraction(1e-8)))) for i in range(3)])
+      dvn = dot(xdv.vel[0], f)
+      eps = z3.RealVal(str(Fraction(1e-6)))
+      # stated with margins, not with the exact guard constants (1e-6, 1e-8 and their float32/float64 roundings are not part of the property):
+      # the correction never overshoots and never pulls (0 <= dvn/k <= 1) ...
+      goal = [z3.Implies(tiny, dvn == 0), dvn * k >= 0, dvn * dvn <= k * k]
+      # the "small pipeline-specific margin": for a non-negligible impact (|k| >= 1e-3 m/s) on a body of at most 1000 kg the rebound speed is within 0.3 % of e * impact speed
+      goal.append(z3.Implies(z3.And(absk >= z3.RealVal('1/1000'), m <= 1000, e <= 1), z3.And((a + dvn) - (-e * b) <= 3 * absk / 1000, (-e * b) - (a + dvn) <= 3 * absk / 1000)))
+    else:
+      from brax.spring import collisions
+      real_get = bc.get
+      erp, dt = A.var('erp'), A.var('dt')
+      sys2 = sys.replace(baumgarte_erp=Sym(erp), opt=sys.opt.replace(timestep=Sym(dt)))
+      pre += [erp >= 0, dt > 0, a < 0]
+
+      def fres(ss_, s, cc):
+        bc.get = lambda sys_, x_: cc
+        try:
+          return collisions.resolve(ss_, s)
+        finally:
+          bc.get = real_get
+      with cut('brax.math:safe_norm'):
+        xdv = sym_call(I, fres, sys2, st, c.obj)
+      dvn = dot(xdv.vel[0], f)
+      # penetrating and approaching: v_n' = -e v_n - erp/dt * dist  (the Baumgarte term pushes the penetration out: the pipeline-specific margin), up to the 1e-8 averaging guard
+      T = -(1 + e) * a - erp / dt * c.dist[0]
+      goal = [dvn <= T, dvn >= T * (1 - z3.RealVal('2/100000000'))]          # the averaging guard 1/(1 + 1e-8) is the only slack
+    # no lateral velocity and no spin are created by a central normal impact
+    goal += [xdv.vel[0][i] - dvn * f[i] == 0 for i in range(3)] + [xdv.ang[0][i] == 0 for i in range(3)]
+    return pre, goal, (lambda w: _native_rebound(pipeline))
+  fn = {'spring': 'brax.spring.collisions:resolve', 'positional': 'brax.positional.collisions:resolve_velocity'}[pipeline]
+  return smt_custom('C06/%s/restitution' % fn.replace('brax.', '').replace(':', '.'), fn,
+                    'world--body contact, contact point on the normal through the centre of mass (sphere), pure normal approach, ANY position in the world, mass, elasticity%s: ' % (' (ground normal +z)' if pipeline == 'positional' else ', normal direction')
+                    + ('with k = -v_n - e v_n_prev the required change of normal velocity: the update dvn satisfies 0 <= dvn/k <= 1 (never overshoots, never pulls), is 0 for negligible k, '
+                       'and for |k| >= 1e-3, m <= 1000 kg, e <= 1 the body leaves with e x impact speed to within 0.3 % of |k|' if pipeline == 'positional' else
+                       "penetrating and approaching: the normal velocity changes by T = -(1+e) v_n - (erp/dt) dist up to the relative slack 2e-8, i.e. v_n' = -e v_n plus the Baumgarte push-out term") +
+                    '; no lateral velocity and no spin are created', body, timeout=200, budget=900)
+
+
+def _native_rebound(pipeline):
+  """drop a sphere with elasticity e away from the world origin: rebound speed / impact speed"""
+  import importlib
+  from brax.io import mjcf
+  out = []
+  for (x, y, e, r) in ((0.0, 0.0, 0.5, 0.1), (1.5, -1.0, 0.5, 0.1), (-0.4, 0.3, 0.9, 0.05)):
+    xml = ('<mujoco><option timestep="0.001"/><custom><numeric name="elasticity" data="%g"/></custom><worldbody><geom name="floor" type="plane" size="10 10 0.1"/>'
+           '<body name="a" pos="%g %g %g"><freejoint/><geom type="sphere" size="%g"/></body></worldbody></mujoco>' % (e, x, y, r + 0.3, r))
+    sys = mjcf.loads(xml)
+    pl = importlib.import_module('brax.%s.pipeline' % pipeline)
+    st = pl.init(sys, sys.init_q, jp.zeros(6))
+
+    def roll(s, _):
+      s = pl.step(sys, s, jp.zeros(0))
+      return s, s.xd.vel[0, 2]
+    _, vz = jax.jit(lambda s: jax.lax.scan(roll, s, None, length=600))(st)
+    vz = np.asarray(vz)
+    vin, vout = float(vz.min()), float(vz[int(np.argmin(vz)):].max())
+    ratio = vout / -vin if vin < 0 else float('nan')
+    out.append({'xy': [x, y], 'elasticity': e, 'impact_speed': -vin, 'rebound_speed': vout, 'ratio': ratio})
+  tol = 0.05 if pipeline == 'positional' else 0.12
+  bad = [o for o in out if not (abs(o['ratio'] - o['elasticity']) <= tol)]
+  return {'reproduced': bool(bad), 'drops': out, 'tolerance': tol}
+
+
 def bounded(tier):
   def run():
     evals = 0
@@ -569,6 +674,13 @@ def bounded(tier):
     if d.get('reproduced'):
       return Result(REFUTED, 'drop test: %s' % d['what'], replay=d)
     evals += d['evaluations']
+    for pipeline in ('spring', 'positional'):
+      rb = _native_rebound(pipeline)
+      evals += len(rb['drops'])
+      for o in rb['drops']:
+        distinct.add((pipeline, 'rebound', tuple(o['xy']), o['elasticity']))
+      if rb['reproduced']:
+        return Result(REFUTED, '%s: rebound speed / impact speed differs from the configured elasticity by more than %g: %s' % (pipeline, rb['tolerance'], [(o['xy'], o['elasticity'], round(o['ratio'], 3)) for o in rb['drops']]), replay=rb)
     return Result(PROVED, 'bounded: separated-vs-disabled, limits-removed, unit rotations for 3 pipelines; %d drop histories (resting height, sinking, push-only, rebound)' % d['evaluations'],
                   stats={'evaluations': evals, 'distinct_nontrivial': len(distinct) + d['evaluations']})
   return Obligation('C06/bounded/scenes_and_drops', 'brax.{generalized,spring,positional}.pipeline:step', 'BOUNDED: separated scene vs collisions disabled; unreached limits vs no limits; '
@@ -619,7 +731,7 @@ def obligations(tier):
          contact_inert('spring', 1, Q), contact_inert('spring', 2, Q), contact_inert('positional', 1, Q), contact_inert('positional', 2, Th),
          generalized_masks(), imp_aref_range(), generalized_force_inert(),
          unit_rot('spring', False, Q), unit_rot('spring', True, Q), unit_rot('positional', False, Q), unit_rot('positional', True, Q),
-         integrate_unit('spring'), integrate_unit_ring(), push_only('spring'), bounded(tier)]
+         integrate_unit('spring'), integrate_unit_ring(), push_only('spring'), restitution('positional'), restitution('spring'), bounded(tier)]
   # the assumed contract of the contact.get cut ("separated geometry is reported with dist >= 0") rests on contact.get handing the collision routine the
   # true world pose of every geom: that clause is proved here as well (same obligation as C10's)
   from verif.contracts import C10
